@@ -1,6 +1,8 @@
 package main
 
 import (
+	"sync/atomic"
+	"sync"
 	"time"
 	"encoding/hex"
 	"fmt"
@@ -234,6 +236,69 @@ func historyLine(text string, docs [][]byte) (s string) {
 	return "H " + first + " " + second
 }
 
+// one built filter applied from four goroutines at once, while another filter (other patterns, other fields) is being
+// evaluated too: every answer must be the one the filter gives when used alone
+func concurrentLine(text string, docs [][]byte) string {
+	f, err := syz.BuildFilter(text)
+	if err != nil || len(docs) == 0 {
+		return "P same"
+	}
+	seq := make([]bool, len(docs))
+	panicked := false
+	func() {
+		defer func() {
+			if e := recover(); e != nil {
+				panicked = true
+			}
+		}()
+		for i, d := range docs {
+			seq[i] = f(uint64(i), d)
+		}
+	}()
+	if panicked {
+		return "P same" // reported by the other lines
+	}
+	bg, _ := syz.BuildFilter("name MATCHES '^zz' OR email MATCHES 'q$' OR status MATCHES 'a.*b'")
+	var wg sync.WaitGroup
+	var bad, stop int32
+	for g := 0; g < 4; g++ {
+		wg.Add(1)
+		go func(g int) {
+			defer wg.Done()
+			defer func() {
+				if e := recover(); e != nil {
+					atomic.StoreInt32(&bad, 2)
+				}
+			}()
+			for r := 0; r < 30; r++ {
+				for k := range docs {
+					i := (k + g) % len(docs)
+					if f(uint64(i), docs[i]) != seq[i] {
+						atomic.CompareAndSwapInt32(&bad, 0, 1)
+					}
+				}
+			}
+		}(g)
+	}
+	go func() {
+		defer func() { recover() }()
+		for atomic.LoadInt32(&stop) == 0 && bg != nil {
+			for i, d := range docs {
+				bg(uint64(i), d)
+			}
+		}
+	}()
+	wg.Wait()
+	atomic.StoreInt32(&stop, 1)
+	switch atomic.LoadInt32(&bad) {
+	case 1:
+		return "P diff"
+	case 2:
+		return "P panic"
+	}
+	return "P same"
+}
+
 func runFilter() {
 	data, err := os.ReadFile("/dev/stdin")
 	if err != nil {
@@ -263,6 +328,7 @@ func runFilter() {
 				ls = append(ls, "R"+v2[1:])
 			}
 			ls = append(ls, historyLine(text, docs))
+			ls = append(ls, concurrentLine(text, docs))
 			done <- ls
 		}()
 		select {
